@@ -32,8 +32,9 @@ const B_FBIG: usize = 7;
 const B_SBIG: usize = 8;
 const B_CONT2: usize = 9;
 const B_Z2: usize = 10;
+const B_HASH0: usize = 11;
 
-pub const NCALLS: usize = 13;
+pub const NCALLS: usize = 19;
 
 impl Inputs {
     pub fn build(s: &dyn Subject) -> Inputs {
@@ -58,7 +59,9 @@ impl Inputs {
         let fbig = crate::wrap::zlib_wrap([0x78, 0x9c], &sbig, &big);
         let cont2 = s.expand(&fpng).unwrap_or_default();
         let z2 = s.compress_zstd(&fpng).unwrap_or_default();
-        Inputs { blobs: vec![fsmall, fpng, cont, s1, plain, corr, z, fbig, sbig, cont2, z2] }
+        let mut blobs = vec![fsmall, fpng, cont, s1, plain, corr, z, fbig, sbig, cont2, z2];
+        blobs.extend(forced_hash_inputs(s));
+        Inputs { blobs }
     }
     pub fn save(&self, path: &str) {
         let mut out = Vec::new();
@@ -81,10 +84,33 @@ impl Inputs {
     }
 }
 
+/// a stream with references and the estimator's parameter vector for it; calls 13..=18 code its
+/// corrections under that vector with the hash algorithm replaced by 2..=7, so that the output of every
+/// hash function (and of any table it builds lazily) decides the digest
+fn forced_hash_inputs(s: &dyn Subject) -> Vec<Vec<u8>> {
+    // a tiny stream: the time between the start barrier and the first hash computation is a few
+    // microseconds, so threads that start together also reach lazily initialised state together
+    use crate::model::*;
+    let mut toks: Vec<Tok> = b"abcdefgh".iter().map(|&c| Tok::Lit(c)).collect();
+    toks.push(Tok::Ref { len: 8, dist: 8, irr: false });
+    toks.push(Tok::Lit(b'x'));
+    toks.push(Tok::Ref { len: 5, dist: 12, irr: false });
+    toks.push(Tok::Lit(b'y'));
+    let stream = serialise(&Stream { blocks: vec![Block::Fixed { toks }], final_pad: 0 });
+    let v = match caught(|| s.estimate(&stream)) {
+        Ok(Ok(v)) => v,
+        _ => vec![0, 0, 1, 15, 1, 5, 32767, 16383, 32767, 0, 0, 8, 16, 128, 128, 3, 0, 0],
+    };
+    let vb: Vec<u8> = v.iter().flat_map(|x| x.to_le_bytes()).collect();
+    vec![stream, vb]
+}
+
 pub const CALL_NAMES: [&str; NCALLS] = [
     "expand(zlib file)", "expand(png file)", "recreate(container)", "decompress(stream, verify=true)", "decompress(stream, verify=false)",
     "recompress(plain, corrections)", "compress_zstd(zlib file)", "decompress_zstd(frame)", "expand(64 KiB zlib file)", "decompress(64 KiB stream, verify=true)",
     "recreate(png container)", "WrapperDecompressZip(frame of the png file)", "WrapperDecompressZip(frame of the zlib file)",
+    "corrections(stream, hash=MiniZFast)", "corrections(stream, hash=Libdeflate4)", "corrections(stream, hash=Libdeflate4Fast)",
+    "corrections(stream, hash=ZlibNG)", "corrections(stream, hash=RandomVector)", "corrections(stream, hash=Crc32c)",
 ];
 
 fn dres<T: AsRef<[u8]>>(r: Result<R<T>, PanicInfo>) -> u64 {
@@ -120,6 +146,17 @@ pub fn call(s: &dyn Subject, id: usize, inp: &Inputs) -> u64 {
         10 => dres(caught(|| recreate_yielding(s, &b[B_CONT2]))),
         11 => dres(caught(|| c_decompress(s, &b[B_Z2], b[B_FPNG].len() + 64))),
         12 => dres(caught(|| c_decompress(s, &b[B_Z], b[B_FSMALL].len() + 64))),
+        13..=18 => {
+            let mut v: Vec<u32> = b[B_HASH0 + 1].chunks(4).map(|c| u32::from_le_bytes(c.try_into().unwrap())).collect();
+            v[4] = (id - 13 + 2) as u32;
+            v[5] = 0;
+            v[6] = 0;
+            match caught(|| s.corrections_with_params(&b[B_HASH0], &v)) {
+                Ok(Ok((plain, corr, n))) => fnv(&plain) ^ fnv(&corr).rotate_left(13) ^ n as u64,
+                Ok(Err(e)) => fnv(format!("Err{}:{}", e.code, e.msg).as_bytes()) ^ 0x1111,
+                Err(p) => fnv(format!("panic{}", p.loc).as_bytes()) ^ 0x2222,
+            }
+        }
         _ => unreachable!(),
     }
 }
@@ -169,6 +206,83 @@ pub fn digest_main(s: &dyn Subject, inputs_path: &str, which: &str) {
     for id in ids {
         eprintln!("DIGEST {} {:016x}", id, call(s, id, &inp));
     }
+}
+
+static FU_ARRIVED: std::sync::atomic::AtomicUsize = std::sync::atomic::AtomicUsize::new(0);
+static FU_N: std::sync::atomic::AtomicUsize = std::sync::atomic::AtomicUsize::new(0);
+thread_local! {
+    static FU_ARMED: Cell<bool> = const { Cell::new(false) };
+}
+
+/// second barrier inside the library: the first time an armed thread reaches the start of a block
+/// prediction / reconstruction (hook points 30, 32: the tables are allocated, hashing starts next)
+fn firstuse_hook(site: u32) {
+    use std::sync::atomic::Ordering::SeqCst;
+    if site != 30 && site != 32 {
+        return;
+    }
+    if !FU_ARMED.with(|a| a.replace(false)) {
+        return;
+    }
+    FU_ARRIVED.fetch_add(1, SeqCst);
+    let t0 = std::time::Instant::now();
+    while FU_ARRIVED.load(SeqCst) < FU_N.load(SeqCst) {
+        std::hint::spin_loop();
+        if t0.elapsed().as_millis() > 50 {
+            break;
+        }
+    }
+}
+
+/// child process entry: `n` threads start call `id` at the same moment (first use of the state that
+/// only this call touches); prints one digest per thread. Threads warm up with sibling calls that run
+/// the same code with other parameters (calls 13..=18 differ only in the hash algorithm), then meet at
+/// a spinning barrier before the call and again at the library's hook point right before hashing starts.
+pub fn firstuse_main(s: &dyn Subject, inputs_path: &str, id: usize, n: usize) {
+    use std::sync::atomic::Ordering::SeqCst;
+    let inp = Inputs::load(inputs_path);
+    FU_N.store(n, SeqCst);
+    s.set_sched_hook(Some(firstuse_hook));
+    let arrived = std::sync::atomic::AtomicUsize::new(0);
+    let ds: Vec<u64> = std::thread::scope(|sc| {
+        let hs: Vec<_> = (0..n)
+            .map(|_| {
+                sc.spawn(|| {
+                    if (13..=18).contains(&id) {
+                        for w in (13..=18).filter(|w| *w != id) {
+                            let _ = call(s, w, &inp);
+                            let _ = call(s, w, &inp);
+                        }
+                    }
+                    arrived.fetch_add(1, SeqCst);
+                    while arrived.load(SeqCst) < n {
+                        std::hint::spin_loop();
+                    }
+                    FU_ARMED.with(|a| a.set(true));
+                    call(s, id, &inp)
+                })
+            })
+            .collect();
+        hs.into_iter().map(|h| h.join().unwrap_or(0)).collect()
+    });
+    s.set_sched_hook(None);
+    for d in ds {
+        eprintln!("DIGEST {} {:016x}", id, d);
+    }
+}
+
+fn child_firstuse(inputs_path: &str, id: usize, n: usize) -> Result<Vec<u64>, String> {
+    let exe = std::env::current_exe().map_err(|e| e.to_string())?;
+    let out = std::process::Command::new(&exe).arg("firstuse").arg(inputs_path).arg(id.to_string()).arg(n.to_string()).output().map_err(|e| format!("spawn: {}", e))?;
+    let text = String::from_utf8_lossy(&out.stderr).to_string();
+    let v: Vec<u64> = text.lines().filter_map(|l| {
+        let p: Vec<&str> = l.split_whitespace().collect();
+        if p.len() == 3 && p[0] == "DIGEST" { u64::from_str_radix(p[2], 16).ok() } else { None }
+    }).collect();
+    if v.len() != n {
+        return Err(format!("child failed: status {:?}, stderr {}", out.status, &text[..text.len().min(300)]));
+    }
+    Ok(v)
 }
 
 fn child_digests(inputs_path: &str, which: &str, envs: &[(&str, &str)], no_aslr: bool) -> Result<Vec<(usize, u64)>, String> {
@@ -482,7 +596,7 @@ pub fn run_c14(ctx: &Ctx, st: &mut Local) {
         rec(ctx, st, s, &inp, &fresh, &mut hist, maxlen, &mut idx);
         let _ = std::fs::remove_file(&path);
         let e = st.eng(name);
-        e.bound = "13 (function, input) calls incl. the C wrappers; each as the first call of a fresh process; all 13+169+2197 call sequences of length <= 3 in one process, every result compared with the fresh-process result".into();
+        e.bound = "19 (function, input) calls incl. the C wrappers and the corrections of one stream coded under each hash algorithm; each as the first call of a fresh process; all 19+361+6859 call sequences of length <= 3 in one process, every result compared with the fresh-process result".into();
         e.exhaustive = true;
     }
 
@@ -542,7 +656,55 @@ pub fn run_c14(ctx: &Ctx, st: &mut Local) {
         }
         let _ = std::fs::remove_file(&path);
         let e = st.eng(name);
-        e.bound = "all 13 calls in fresh processes under MALLOC_PERTURB_ {0,0x55,0xAA} x mmap/trim threshold {default, 1 GiB} x ASLR {on, off}".into();
+        e.bound = "all 19 calls in fresh processes under MALLOC_PERTURB_ {0,0x55,0xAA} x mmap/trim threshold {default, 1 GiB} x ASLR {on, off}".into();
+        e.exhaustive = true;
+    }
+
+    // (2b) first use under contention (sampled): in fresh processes, many threads start the same call
+    // at the same moment, so that lazily initialised state is raced on its first use
+    let name = "firstuse(sampled)";
+    if ctx.engine_on(name) {
+        let path = format!("/verif/target/run/c14_inputs_f{}_{}.bin", std::process::id(), ctx.thread);
+        inp.save(&path);
+        let reps = if ctx.quick() { 6 } else { 40 };
+        let mut idx = 0u64;
+        for id in 0..NCALLS {
+            if id == 8 || id == 9 {
+                continue;
+            }
+            // the calls that differ only in the hash algorithm get more attempts: each of them is the
+            // only user of its hash function's state
+            let reps = if id >= 13 { reps * 5 } else { reps };
+            for rep in 0..reps {
+                let i = idx;
+                idx += 1;
+                if ctx.sel.mine(i) {
+                    count(ctx, name, st, i);
+                }
+                if !ctx.take(name, i) {
+                    continue;
+                }
+                let n = [8usize, 12, 16, 16][rep % 4];
+                ctx.begin(name, i, 120_000);
+                let r = child_firstuse(&path, id, n);
+                ctx.end();
+                match r {
+                    Err(e) => crate::streams::harness_bug(&format!("firstuse child failed: {}", e)),
+                    Ok(v) => {
+                        let bad = v.iter().filter(|d| **d != seq[id]).count();
+                        if bad > 0 {
+                            st.violation(ctx.viol(name, i, "first-use-race", None,
+                                format!("{} of {} threads that started {} simultaneously in a fresh process got a result different from the sequential one", bad, n, CALL_NAMES[id]), &[]));
+                        } else {
+                            st.outcome(name, "concurrent-first-use-equals-sequential");
+                        }
+                    }
+                }
+            }
+        }
+        let _ = std::fs::remove_file(&path);
+        let e = st.eng(name);
+        e.bound = format!("17 calls x {} fresh processes each (x5 for the six calls that differ only in the hash algorithm), 8-16 threads that warm up with sibling calls, start the call at a spinning barrier and meet again at the hook point before hashing starts (free-running: a sample of interleavings, labelled as such)", reps);
         e.exhaustive = true;
     }
 
@@ -637,7 +799,7 @@ pub fn run_c14(ctx: &Ctx, st: &mut Local) {
         e.states += 1;
         e.transitions += 1;
         e.nontrivial += 1;
-        e.bound = format!("all {} worker threads start each of the 13 calls simultaneously (barrier), {} rounds, alternating private and identical inputs, compared with the sequential digests (free-running: a sample of interleavings, labelled as such)", ctx.nthreads, rounds);
+        e.bound = format!("all {} worker threads start each of the 19 calls simultaneously (barrier), {} rounds, alternating private and identical inputs, compared with the sequential digests (free-running: a sample of interleavings, labelled as such)", ctx.nthreads, rounds);
         e.exhaustive = true;
         if bad > 0 {
             st.violation(ctx.viol(name, ctx.thread as u64, "concurrent-result-differs", None, format!("{} concurrent calls returned a result different from the sequential one", bad), &[]));
